@@ -17,7 +17,7 @@ def gen_seek(rng):
     for _ in range(n):
         m = rng.randrange(len(ms))
         msg.append((m, rng.choice(ms[m][1])[0]))
-    kind = rng.choice([0, 0, 1, 1, 2])
+    kind = rng.choice([0, 0, 1, 1, 2, 3, 3])
     ops = []
     cur = n          # which snapshot the decoder currently corresponds to (None if unknown)
     lowest = n       # for the Vec backend: data above the lowest position reached is gone
@@ -79,6 +79,8 @@ def oracle_C07(inp, out):
         cur = n
         maxpos = snaps[n][0]      # length of the bulk
         lowest = maxpos
+        if kind == 3:
+            return _oracle_reversed(ms, msg, ops, snaps, out, o)
         j = 0
         while j < len(ops):
             op = ops[j]
@@ -124,6 +126,43 @@ def oracle_C07(inp, out):
                 return None
     except IndexError:
         return "malformed output"
+    return None
+
+
+def _oracle_reversed(ms, msg, ops, snaps, out, o):
+    """reversed decoder: seeking to a recorded snapshot always succeeds and decoding then yields
+    the symbols pushed before it, newest first"""
+    n = len(msg)
+    cur = n
+    j = 0
+    while j < len(ops):
+        op = ops[j]
+        if op == 1:
+            if out[o] != 0:
+                return "reversed decoder: seek to a recorded position was refused"
+            cur = ops[j + 1]
+            j += 2; o += 1
+        elif op == 2:
+            m = ops[j + 1]
+            if cur is not None and cur > 0 and msg[cur - 1][0] == m:
+                if out[o] != msg[cur - 1][1]:
+                    return "reversed decoder: decoded %d, expected %d" % (out[o], msg[cur - 1][1])
+                cur -= 1
+            else:
+                cur = None
+            j += 2; o += 1
+        elif op == 3:
+            if out[o] == 0:
+                cur = None
+            j += 3; o += 1
+        elif op == 4:
+            if cur is not None and out[o + 1] != snaps[cur][1]:
+                return "reversed decoder: pos() state differs from the snapshot"
+            j += 1; o += 2
+        elif op == 5:
+            j += 1; o += 1
+        else:
+            return None
     return None
 
 
